@@ -1,5 +1,5 @@
 import Pm.QueryCell
-import Pm.EndToEnd
+import Pm.RunXE2E
 /-! # The writes of a run, and what a query's arglist holds when its reply is built (daemon level; used by `Props/C03`)
 
 * `devStepEv`, `devPassEv`, `foldEv`, `passEv`, `runEvX`: the write events (`Pm/QueryEv.lean`) of one device's turn, of the
@@ -7,10 +7,11 @@ import Pm.EndToEnd
   event stamped with the name of the device whose turn produced it; the store after is the store before with these
   writes applied in order (`devPass_store`, `daemonPass_store`), and for one arglist only the writes to that arglist
   count (`daemonPass_cell`, `runX_cell`).
-* `PassX`, `runX`: a run in which every pass brings its own recorded `regexec` answers.  (`Isolation.runPasses` cannot: the
-  answers are the field `pendingX` of the world, `daemonPass` clears it, and the driver refills it between passes — so in
-  `runPasses w ps` every pass but the first sees "no match" for every `expect`.  `runX w (ps.map (⟨·, []⟩)) = runPasses w ps`.)
-  The run-level lemmas of `Pm/EndToEnd.lean` (`run_track`, `run_answer`) are restated for `runX`.
+* `PassX`, `runX`: a run in which every pass brings its own recorded `regexec` answers — the shared definition of
+  `Pm/RunX.lean`.  (`Isolation.runPasses` cannot: the answers are the field `pendingX` of the world, `daemonPass` clears it,
+  and the driver refills it between passes — so in `runPasses w ps` every pass but the first sees "no match" for every
+  `expect`.  `runX w (ps.map (⟨·, []⟩)) = runPasses w ps`.)  The run-level lemmas of `Pm/EndToEnd.lean` for `runX`
+  (`AliveX`, `runFinsX`, `runX_inv`, `run_trackX`, `run_answerX`, …) are in `Pm/RunXE2E.lean` (namespace `E2E`).
 * `cliPostPoll_fresh_cells`: a command accepted in the client phase of a pass starts from a fresh arglist. -/
 namespace Pm.Daemon.QRun
 open Pm Pm.Client Pm.Daemon
@@ -129,88 +130,19 @@ theorem devPhase_cell (w : W) (p : PassIn) (A : Nat) :
 
 /-! ## C. runs in which every pass brings its regex answers -/
 
-/-- one pass of a run: the kernel's answers and the recorded `regexec` answers the device phase will consume -/
-structure PassX where
-  p : PassIn
-  rx : List RxCall := []
-
-/-- the driver hands the recorded `regexec` answers to the daemon before the pass (`DmMain`: the `X` lines) -/
-def feed (w : W) (rx : List RxCall) : W := { w with pendingX := w.pendingX ++ rx }
-
-def stepX (w : W) (q : PassX) : W := (daemonPass (feed w q.rx) q.p).1
-/-- the world after a run of passes -/
-def runX (w : W) (qs : List PassX) : W := qs.foldl stepX w
-
-theorem feed_nil (w : W) : feed w [] = w := by cases w; simp [feed]
-
-/-- `runPasses` is the special case in which no pass brings a regex answer -/
-theorem runX_runPasses (w : W) (ps : List PassIn) : runX w (ps.map fun p => ⟨p, []⟩) = Isolation.runPasses w ps := by
-  induction ps generalizing w with
-  | nil => rfl
-  | cons p r ih =>
-    rw [List.map_cons]
-    show runX (stepX w ⟨p, []⟩) _ = _
-    rw [ih]
-    unfold stepX
-    rw [feed_nil]
-    rfl
-
-theorem feed_inv {w : W} (rx : List RxCall) (h : Inv w) : Inv (feed w rx) :=
-  ⟨⟨h.1.1.congr rfl rfl rfl, h.1.2.congr rfl rfl rfl⟩, h.2.congr rfl rfl rfl⟩
+/- `PassX`, `feed`, `stepX`, `runX` (+ `runX_cons`, `runX_append`, `feed_nil`) are the shared definitions of `Pm/RunX.lean`;
+   `runX_runPasses`, `feed_inv`, `AliveX`, `runFinsX`, `runX_inv`, `runX_alNext`, `runX_over`, `run_trackX`, `run_answerX` are in
+   `Pm/RunXE2E.lean` (namespace `Pm.Daemon.E2E`). -/
 
 /-- the writes of a run, in order -/
 def runEvX : W → List PassX → List WEv
   | _, [] => []
   | w, q :: qs => passEv (feed w q.rx) q.p ++ runEvX (stepX w q) qs
 
-/-- the completions a run reports for client `g`, in order -/
-def runFinsX : W → List PassX → Nat → List (Bytes × ActErr)
-  | _, [], _ => []
-  | w, q :: qs, g => passFins (feed w q.rx) q.p g ++ runFinsX (stepX w q) qs g
-
-/-- no pass of the run ends in a modelled assertion -/
-def AliveX : W → List PassX → Prop
-  | _, [] => True
-  | w, q :: qs => passDead (feed w q.rx) q.p = false ∧ AliveX (stepX w q) qs
-
-theorem runX_cons (w : W) (q : PassX) (qs : List PassX) : runX w (q :: qs) = runX (stepX w q) qs := rfl
-theorem runX_append (w : W) (qs rs : List PassX) : runX w (qs ++ rs) = runX (runX w qs) rs := by
-  unfold runX; rw [List.foldl_append]
-
-theorem runFinsX_append (w : W) (qs rs : List PassX) (g : Nat) :
-    runFinsX w (qs ++ rs) g = runFinsX w qs g ++ runFinsX (runX w qs) rs g := by
-  induction qs generalizing w with
-  | nil => rfl
-  | cons q qs ih => rw [List.cons_append, runFinsX, runFinsX, ih, runX_cons, List.append_assoc]
-
 theorem runEvX_append (w : W) (qs rs : List PassX) : runEvX w (qs ++ rs) = runEvX w qs ++ runEvX (runX w qs) rs := by
   induction qs generalizing w with
   | nil => rfl
   | cons q qs ih => rw [List.cons_append, runEvX, runEvX, ih, runX_cons, List.append_assoc]
-
-theorem AliveX.append {w : W} {qs rs : List PassX} (h : AliveX w (qs ++ rs)) : AliveX w qs ∧ AliveX (runX w qs) rs := by
-  induction qs generalizing w with
-  | nil => exact ⟨trivial, h⟩
-  | cons q qs ih =>
-    obtain ⟨h1, h2⟩ := h
-    obtain ⟨i1, i2⟩ := ih h2
-    exact ⟨⟨h1, i1⟩, i2⟩
-
-theorem stepX_inv (w : W) (q : PassX) (h : Inv w) (hd : passDead (feed w q.rx) q.p = false) : Inv (stepX w q) :=
-  daemonPass_inv _ _ (feed_inv q.rx h) hd
-
-theorem runX_inv (w : W) (qs : List PassX) (h : Inv w) (ha : AliveX w qs) : Inv (runX w qs) := by
-  induction qs generalizing w with
-  | nil => exact h
-  | cons q qs ih => rw [runX_cons]; exact ih _ (stepX_inv w q h ha.1) ha.2
-
-theorem stepX_alNext (w : W) (q : PassX) (h : Inv w) : w.alNext ≤ (stepX w q).alNext :=
-  daemonPass_alNext (feed w q.rx) q.p (feed_inv q.rx h)
-
-theorem runX_alNext (w : W) (qs : List PassX) (h : Inv w) (ha : AliveX w qs) : w.alNext ≤ (runX w qs).alNext := by
-  induction qs generalizing w with
-  | nil => exact Nat.le_refl _
-  | cons q qs ih => rw [runX_cons]; exact Nat.le_trans (stepX_alNext w q h) (ih _ (stepX_inv w q h ha.1) ha.2)
 
 /-- **a run, one arglist**: an arglist that exists at the start of a run (none of whose passes ends in an assertion) is,
     after the run, what it was with the writes of the run to that arglist applied in order -/
@@ -382,92 +314,6 @@ theorem cliPostPoll_fresh_cells (w : W) (acc : Nat) (envs : List FdEnv) (g : Nat
     · split at hc <;> exact hidle c k hc hk
   · intro x c0 hI hx hc0
     exact cliStep_fresh_cells envs g w.alNext x c0 hI hc0 hx.1 hx.2
-
-/-! ## E. tracking a command over a run (`run_track`, `run_answer` of `Pm/EndToEnd.lean` for `runX`) -/
-
-theorem stepX_over (g A : Nat) (w : W) (q : PassX) (hinv : Inv w) (h : Over g A w) : Over g A (stepX w q) :=
-  daemonPass_over g A (feed w q.rx) q.p (feed_inv q.rx hinv) h
-
-theorem runX_over (g A : Nat) (w : W) (qs : List PassX) (h : Inv w) (ha : AliveX w qs) (ho : Over g A w) : Over g A (runX w qs) := by
-  induction qs generalizing w with
-  | nil => exact ho
-  | cons q qs ih => rw [runX_cons]; exact ih _ (stepX_inv w q h ha.1) ha.2 (stepX_over g A w q h ho)
-
-/-- **tracking a command over a run.**  Client `g` has command `k` at the start; if after the run it still has a command with
-    the same arglist id, that command is `k` with `pending` lowered by the number of completions the run reported for `g` —
-    fewer than `pending` — and the error flag or-ed with "one of them failed". -/
-theorem run_trackX (g : Nat) : ∀ (qs : List PassX) (w : W) (c : Cli) (k : CmdC), Inv w → AliveX w qs →
-    cliRec w g = some c → c.cmd = some k →
-    ∀ c' k', cliRec (runX w qs) g = some c' → c'.cmd = some k' → k'.al = k.al →
-      (runFinsX w qs g).length < k.pending ∧
-      k' = { k with error := k.error || (runFinsX w qs g).any failed, pending := k.pending - (runFinsX w qs g).length } := by
-  intro qs
-  induction qs with
-  | nil =>
-    intro w c k hinv _ hc hk c' k' hc' hk' _
-    have : cliRec (runX w []) g = cliRec w g := rfl
-    rw [this, hc] at hc'; cases hc'
-    rw [hk] at hk'; cases hk'
-    exact ⟨hinv.2.pos g c k hc hk, by cases k; simp [runFinsX]⟩
-  | cons q qs ih =>
-    intro w c k hinv ha hc hk c' k' hc' hk' hal
-    obtain ⟨ha1, ha2⟩ := ha
-    have hinv' := stepX_inv w q hinv ha1
-    rw [runX_cons] at hc'
-    have hA : k.al < (stepX w q).alNext := Nat.lt_of_lt_of_le (hinv.1.2.cmds g c k hc hk) (stepX_alNext w q hinv)
-    have hover : cliRec (stepX w q) g = none ∨ (∃ c2, cliRec (stepX w q) g = some c2 ∧ c2.cmd = none) → False := by
-      intro hgone
-      have ho : Over g k.al (stepX w q) := by
-        refine ⟨hA, ?_⟩
-        intro c2 k2 h1 h2
-        rcases hgone with hn | ⟨c3, h3, h4⟩
-        · rw [hn] at h1; cases h1
-        · rw [h3] at h1; cases h1; rw [h4] at h2; cases h2
-      exact (runX_over g k.al _ qs hinv' ha2 ho).2 c' k' hc' hk' hal
-    rcases daemonPass_view (feed w q.rx) q.p g c k (feed_inv q.rx hinv) ha1 hc hk with ⟨_, hn⟩ | ⟨c1, _, _, ⟨hlt, hrec⟩ | ⟨_, r, _, hrec⟩⟩
-    · exact absurd (Or.inl hn) hover
-    · obtain ⟨i1, i2⟩ := ih _ _ _ hinv' ha2 hrec rfl c' k' hc' hk' hal
-      simp only at i1 i2
-      refine ⟨by rw [runFinsX, List.length_append]; omega, ?_⟩
-      rw [i2, runFinsX]
-      simp only [List.any_append, List.length_append, Bool.or_assoc, Nat.sub_sub]
-    · exact absurd (Or.inr ⟨_, hrec, rfl⟩) hover
-
-/-- **the pass that answers the command** (`run_answer` for `runX`).  Client `g` has command `k0` at the start of a run none
-    of whose passes ends in an assertion; before the last pass `q` the command (identified by its arglist id) is still in
-    progress, after it the client is there and idle.  Then the run reported exactly `k0.pending` completions for `g`, and in
-    pass `q` the client — `c1` is its record when the client phase of `q` is over — was sent the lines of that pass, then
-    the terminal reply `r` computed from `k0`'s targets, the flag `k0.error ∨ some completion of the run failed` and the
-    arglist as it stands after the pass, then the prompt, and nothing else. -/
-theorem run_answerX (w0 : W) (qs : List PassX) (q : PassX) (g : Nat) (c0 : Cli) (k0 : CmdC) (c' : Cli)
-    (hinv : Inv w0) (ha : AliveX w0 (qs ++ [q])) (hc0 : cliRec w0 g = some c0) (hk0 : c0.cmd = some k0)
-    (hbusy : ∃ c k, cliRec (runX w0 qs) g = some c ∧ c.cmd = some k ∧ k.al = k0.al)
-    (hidle : cliRec (runX w0 (qs ++ [q])) g = some c') (hnone : c'.cmd = none) :
-    (runFinsX w0 (qs ++ [q]) g).length = k0.pending ∧
-    ∃ c1 r, cliRec (cliPostPoll (feed (runX w0 qs) q.rx) q.p.acc q.p.envs) g = some c1 ∧
-      finalReply c1.exprange { k0 with error := k0.error || (runFinsX w0 (qs ++ [q]) g).any failed,
-                                       args := (storeArgs (runX w0 (qs ++ [q])) k0.al).map argC } = some r ∧
-      c'.toBuf = c1.toBuf ++ passText (feed (runX w0 qs) q.rx) q.p g ++ r ++ prompt := by
-  obtain ⟨ha1, ha2⟩ := ha.append
-  obtain ⟨c, k, hc, hk, hal⟩ := hbusy
-  obtain ⟨t1, t2⟩ := run_trackX g qs w0 c0 k0 hinv ha1 hc0 hk0 c k hc hk hal
-  have hinv1 := runX_inv w0 qs hinv ha1
-  have hlast : runX w0 (qs ++ [q]) = (daemonPass (feed (runX w0 qs) q.rx) q.p).1 := by rw [runX_append]; rfl
-  rw [hlast] at hidle ⊢
-  have hF : runFinsX w0 (qs ++ [q]) g = runFinsX w0 qs g ++ passFins (feed (runX w0 qs) q.rx) q.p g := by
-    rw [runFinsX_append]; simp [runFinsX]
-  rcases daemonPass_view (feed (runX w0 qs) q.rx) q.p g c k (feed_inv q.rx hinv1) ha2.1 hc hk with
-    ⟨_, hn⟩ | ⟨c1, h1, _, ⟨_, hrec⟩ | ⟨hn, r, hr, hrec⟩⟩
-  · rw [hn] at hidle; cases hidle
-  · rw [hrec] at hidle; cases hidle; cases hnone
-  · rw [hrec] at hidle
-    simp only [Option.some.injEq] at hidle
-    subst hidle
-    rw [t2] at hn hr
-    simp only at hn hr
-    refine ⟨by rw [hF, List.length_append]; omega, c1, r, h1, ?_, rfl⟩
-    rw [← hr]
-    apply Reply.finalReply_congr <;> simp only [hF, List.any_append, Bool.or_assoc]
 
 /-! ## F. where the writes of a run come from -/
 
@@ -682,12 +528,8 @@ open Pm.Daemon.QRun
 #guard_msgs in #print axioms runEvX_at
 /-- info: 'Pm.Daemon.QRun.cliPostPoll_fresh_cells' depends on axioms: [propext, Classical.choice, Quot.sound] -/
 #guard_msgs in #print axioms cliPostPoll_fresh_cells
-/-- info: 'Pm.Daemon.QRun.run_answerX' depends on axioms: [propext, Classical.choice, Quot.sound] -/
-#guard_msgs in #print axioms run_answerX
 /-- info: 'Pm.Daemon.QRun.runX_cell' depends on axioms: [propext, Classical.choice, Quot.sound] -/
 #guard_msgs in #print axioms runX_cell
 /-- info: 'Pm.Daemon.QRun.daemonPass_store' depends on axioms: [propext, Classical.choice, Quot.sound] -/
 #guard_msgs in #print axioms daemonPass_store
-/-- info: 'Pm.Daemon.QRun.runX_runPasses' depends on axioms: [propext, Classical.choice, Quot.sound] -/
-#guard_msgs in #print axioms runX_runPasses
 end AxiomChecks
